@@ -213,6 +213,27 @@ Verdict(d) ==
     ELSE IF ~MeshOK(d) THEN "NonUniformMesh"
     ELSE IF OutsideDomain(d) THEN "OutsideDomain"
     ELSE "ok"
+\* which inconsistency, more precisely (names the violation in reports; first applicable)
+Why(d) ==
+    LET v == Verdict(d) IN
+    IF v = "DuplicateName" THEN
+        (IF \E b \in 1..Len(d.blocks) : HasDup(NamesOf(d.blocks[b].comps)) THEN "component"
+         ELSE IF HasDup(NamesOf(d.blocks)) THEN "block"
+         ELSE IF HasDup(NamesOf(d.asms)) THEN "assembly"
+         ELSE IF HasDup([k \in 1..Len(d.asms) |-> d.asms[k].spec]) THEN "specifier"
+         ELSE IF HasDup(NamesOf(d.grids)) THEN "grid"
+         ELSE IF HasDup(NamesOf(d.iso)) THEN "isotopics"
+         ELSE "cell")
+    ELSE IF v = "UnknownSpecifier" THEN
+        (IF ~HasGrid(d, d.core) THEN "core-grid"
+         ELSE IF \E b \in BlocksUsed(d) : ~LinksOK(d.blocks[b]) THEN "link"
+         ELSE IF \E b \in BlocksUsed(d) : d.blocks[b].grid # "" /\ ~HasGrid(d, d.blocks[b].grid) THEN "pin-grid"
+         ELSE IF \E b \in BlocksUsed(d) : \E c \in 1..Len(d.blocks[b].comps) : d.blocks[b].comps[c].iso # "" /\ ~HasIso(d, d.blocks[b].comps[c].iso) THEN "isotopics"
+         ELSE "core-specifier")
+    ELSE IF v = "Overlap" THEN
+        (IF \E b \in BlocksUsed(d) : \E c \in 1..Len(d.blocks[b].comps) : Solid(d.blocks[b].comps[c].mat) /\ NegativeArea(d.blocks[b], d.blocks[b].comps[c])
+         THEN "negative-area" ELSE "exceeds-block")
+    ELSE ""
 \* documents about which the specification says nothing (kept out of the explored set by the state constraint)
 Modelled(d) ==
     /\ \A b \in 1..Len(d.blocks) : LinksOK(d.blocks[b]) => Acyclic(d.blocks[b])
@@ -284,7 +305,7 @@ CellsGrid(name, geom, dom, cells) == [name |-> name, geom |-> geom, dom |-> dom,
 OneCell == CellsGrid("core", "hex", "full", << <<0, 0, "A">> >>)
 
 MixMF == [name |-> "mix", fmt |-> "mf", dens |-> <<10, 1>>, vec |-> << <<"U235", <<1, 4>> >>, <<"U238", <<3, 4>> >> >>]
-MixND == [name |-> "dens", fmt |-> "nd", dens |-> NoRat, vec |-> << <<"U235", <<1, 100>> >>, <<"U238", <<3, 100>> >>, <<"O16", <<2, 25>> >> >>]
+MixND == [name |-> "dens", fmt |-> "nd", dens |-> NoRat, vec |-> << <<"U235", <<1, 100>> >>, <<"U238", <<3, 100>> >>, <<"B10", <<2, 25>> >> >>]
 MixNF == [name |-> "atoms", fmt |-> "nf", dens |-> <<8, 1>>, vec |-> << <<"U235", <<1, 5>> >>, <<"PU239", <<3, 10>> >>, <<"U238", <<1, 2>> >> >>]
 Steel == [name |-> "steel", fmt |-> "mf", dens |-> NoRat, vec |-> << <<"FE56", <<9, 10>> >>, <<"CR52", <<1, 10>> >> >>]
 
@@ -313,25 +334,21 @@ BasePins == [iso |-> <<>>, blocks |-> << [Blk(<<"fuel">>, <<PFuel, PClad, PGuide
 \* "core": placement of two assembly designs on core grids of every geometry
 CoreAsms(outer) == << Asm(<<"fuel", "a">>, "A", <<1, 2>>, <<10, 20>>, <<1, 2>>, <<"A", "B">>),
                       Asm(<<"shield", "b">>, "B", <<2, 2>>, <<10, 20>>, <<2, 1>>, <<"C", "D">>) >>
+CoreStart(geom, dom) ==
+    IF geom = "cartesian" THEN
+        (IF dom = "full" THEN << <<-1, -1, "A">>, <<0, -1, "B">>, <<-1, 0, "B">>, <<0, 0, "A">> >>
+         ELSE << <<0, 0, "A">>, <<1, 0, "B">>, <<0, 1, "B">> >>)
+    ELSE IF dom = "third" THEN << <<0, 0, "A">>, <<1, 0, "B">>, <<2, -1, "A">>, <<1, 1, "B">> >>
+    ELSE IF geom = "hex" THEN << <<0, 0, "A">>, <<1, 0, "B">>, <<-1, 1, "A">> >>
+    ELSE << <<0, 0, "A">>, <<1, 0, "B">>, <<0, -1, "A">> >>
 BaseCore(geom, dom) ==
     LET outer == IF geom = "cartesian" THEN Can ELSE Duct IN
     [iso |-> <<>>, blocks |-> << Blk(<<"fuel">>, <<Fuel, Cool, outer>>), Blk(<<"shield">>, <<Slug, Cool, outer>>) >>,
      asms |-> CoreAsms(outer),
-     grids |-> << CellsGrid("core", geom, dom, << <<0, 0, "A">> >>) >>, core |-> "core"]
+     grids |-> << CellsGrid("core", geom, dom, CoreStart(geom, dom)) >>, core |-> "core"]
 CoreDesigns == {<<"hex", "full">>, <<"hex", "third">>, <<"hex_corners_up", "full">>, <<"cartesian", "full">>, <<"cartesian", "quarter">>}
 
-Bases(f) == IF f = "links" THEN {BaseLinks}
-            ELSE IF f = "comp" THEN {BaseComp}
-            ELSE IF f = "stack" THEN {BaseStack}
-            ELSE IF f = "pins" THEN {BasePins}
-            ELSE {BaseCore(gd[1], gd[2]) : gd \in CoreDesigns}
-
 (* ============================================ edits ============================================ *)
-Init == /\ fam \in Families
-        /\ doc \in Bases(fam)
-        /\ act = [n |-> "Init"]
-        /\ depth = 0
-
 PinNames == {"fuel", "clad", "liner"}
 Geo == {"od", "id"}
 \* ---- component dimension / link choices ("links") ----
@@ -511,6 +528,18 @@ Mappable(gr, f) ==
         Sm == {<<c[1] + o[1], c[2] + o[2]>> : c \in S}
     IN /\ Drawable(MapClassOf(gr.geom, gr.dom), Sm)
        /\ GridContents(gr.geom, gr.dom, Redraw(gr, f)) = f
+MapVariant(d) == [d EXCEPT !.grids[1].mode = "map", !.grids[1].text = Redraw(d.grids[1], CellsOf(d.grids[1]))]
+Bases(f) == IF f = "links" THEN {BaseLinks}
+            ELSE IF f = "comp" THEN {BaseComp}
+            ELSE IF f = "stack" THEN {BaseStack}
+            ELSE IF f = "pins" THEN {BasePins}
+            ELSE {BaseCore(gd[1], gd[2]) : gd \in CoreDesigns} \cup {MapVariant(BaseCore(gd[1], gd[2])) : gd \in CoreDesigns}
+
+Init == /\ fam \in Families
+        /\ doc \in Bases(fam)
+        /\ act = [n |-> "Init"]
+        /\ depth = 0
+
 Place(x, s) ==
     /\ fam = "core" /\ x \in CoreUniverse(doc.grids[1]) /\ s \in {"A", "B", "Z"}
     /\ LET gr == doc.grids[1]
@@ -539,6 +568,10 @@ AsMap ==
        /\ Mappable(gr, f)
        /\ doc' = [doc EXCEPT !.grids[1].mode = "map", !.grids[1].text = Redraw(gr, f)]
     /\ act' = [n |-> "AsMap"]
+DupGrid ==                                                   \* two grids of one name
+    /\ fam = "core" /\ ~HasDup(NamesOf(doc.grids))
+    /\ doc' = [doc EXCEPT !.grids = Append(@, CellsGrid("core", doc.grids[1].geom, doc.grids[1].dom, << <<0, 0, "B">> >>))]
+    /\ act' = [n |-> "DupGrid"]
 ListTwice ==                                                 \* the same cell listed twice in an explicit list
     /\ fam = "core" /\ doc.grids[1].mode = "cells" /\ ~ListedTwice(doc.grids[1])
     /\ doc' = [doc EXCEPT !.grids[1].cells = Append(@, <<@[1][1], @[1][2], "B">>)]
@@ -573,6 +606,7 @@ Edit ==
     \/ \E x \in (-2..2) \X (-2..2), s \in {"A", "B", "Z"} : Place(x, s)
     \/ \E x \in (-2..2) \X (-2..2) : Unplace(x)
     \/ AsMap
+    \/ DupGrid
     \/ ListTwice
 Next == depth < MaxLevel(fam) /\ Edit /\ fam' = fam /\ depth' = depth + 1
 Spec == Init /\ [][Next]_<<vars, act, depth>>
